@@ -218,7 +218,7 @@ INLINES = ["em", "strong", "code", "url", "auto", "image", "hard", "soft", "math
 
 
 LINK_TEXTS = ["plain", "`code`", "$m^2$", "*em*", "**`c`**", "![i](i.png)", "<b>h</b>", "", "a [b] c", "x `c` y", "&amp;", "\\*"]
-LINK_DESTS = ["./a/../b.md", "a//b.md", "dir/", "https://e.org/a/../b//c", "https://e.org/x?a=1&b=2", "other.md", "./a/b.md#frag", "#anchor", "nofile.txt", "<a b.md>", "mailto:a@b.c", "", "/abs/x.md", "ünï.md", "x%20y.md", "a\\(b\\).md"]
+LINK_DESTS = ["./a/../b.md", "a//b.md", "dir/", "https://e.org/a/../b//c", "https://e.org/x?a=1&b=2", "other.md", "./a/b.md#frag", "#anchor", "nofile.txt", "<a b.md>", "mailto:a@b.c", "", "/abs/x.md", "ünï.md", "x%20y.md", "a\\(b\\).md", "README.md", "API/Index.md#Section", "<Two  Spaces.md>", "MiXed.TXT", "#Anchor-Name", "HTTPS://E.org/Path", "<A\tTab.md>", "ÉCOLE.md", "STRASSEß.md", "İ.md"]
 IMG = ["![alt](i.png)", "![*em* `c` alt](p/q.png \"T\")", "![](i.png)", "![a](<sp ace.png>)", "![a](https://e.org/i.png 'ti')", "![a ![b](c.png) d](e.png)", "![a][ref]\n\n[ref]: r.png \"RT\"",
        # destinations that a path normaliser would rewrite
        "![a](./img/four.png)", "![a](img/../icons/six.svg)", "![a](assets//seven.png)", "![a](gallery/)", "![a](../up/./x.png)", "![a](/abs//y.png)", "![a](a/b/../../c.png?x=1#frag)", "![a](.)", "![a](data:image/png;base64,AA//BB==)",
